@@ -333,6 +333,21 @@ def coq_props(rep, prop_file, timeout=600, allowed_axioms=()):
     theorems = re.findall(r"^\s*(?:Theorem|Corollary)\s+([A-Za-z0-9_']+)", txt, re.M)
     printed = re.findall(r"Print Assumptions\s+([A-Za-z0-9_']+)\s*\.", txt)
     missing = [t for t in theorems if t not in printed]
+    # everything the property file imports is brought up to date by make first: a .vo left over from a run against
+    # another tree (a regenerated Gen/*.v) must not be loaded next to a newer one
+    deps = []
+    for m in re.findall(r"From\s+Ckl\s+Require\s+(?:Import|Export)\s+([^.]*(?:\.[A-Za-z_][^.\s]*)*)\s*\.", txt):
+        pass
+    for stmt in re.findall(r"From\s+Ckl\s+Require\s+(?:Import|Export)\s+(.*?)\.\s*(?:\n|$)", txt, re.S):
+        for mod in stmt.split():
+            if re.fullmatch(r"[A-Za-z_][A-Za-z0-9_]*(\.[A-Za-z_][A-Za-z0-9_]*)+", mod):
+                deps.append(mod.replace(".", "/") + ".vo")
+    if deps:
+        okd, outd = coq_make(sorted(set(deps)), timeout=1500)
+        if not okd:
+            for t in theorems or [prop_file]:
+                rep.oblige("theorem " + t, False, outd[-3000:])
+            return False
     with CoqLock():
         vo = src[:-2] + ".vo"
         if os.path.exists(vo):
@@ -513,6 +528,14 @@ def standard_coq(rep, targets, props_file, timeout=1500, regen=None):
     translated files, full .vo build of `targets`, Props/<file> recompiled with
     Print Assumptions parsed per theorem, forbidden-vernacular scan.
     Returns True when the model can be used for a correspondence run."""
+    # every generated file is brought up to date with /repo's working tree first (non-strict: a translator that fails
+    # closed is reported by the check whose group it belongs to, through its own strict `regen`)
+    try:
+        from tools.translate import gen_all
+        with CoqLock():
+            gen_all.generate_all(SRC, COQ, strict=False)
+    except Exception as e:       # pragma: no cover
+        sys.stderr.write("gen_all: %r\n" % e)
     if regen is not None:
         if not regen(rep):
             return False
